@@ -109,6 +109,9 @@ print("checked", len(FS))
     'string.mod': 'import string\nprint(string.digits)\n',
     'ctxmod': 'import ctxmod\nprint(ctxmod.BASE, ctxmod.NAME, ctxmod.VALUE)\nprint(ctxmod.bump())\nprint(ctxmod.ident())\n',
     'import': 'import math\nimport sys\nprint(math.floor(2.5))\n',
+    # how deep a context can recurse is its own business: other contexts recursing at the same time must not use up its allowance
+    'deep.recursion': 'def d(n):\n    if n == 0:\n        t = 0\n        for i in range(400):\n            t += i\n        return t\n    return d(n - 1) + 1\nfor k in range(6):\n    print(d(700))\n',
+    'recursion.limit': 'def probe(n):\n    try:\n        return probe(n + 1)\n    except RuntimeError:\n        return n\nprint(probe(0) == probe(0))\nprint(probe(0) > 800)\ndef d(n):\n    return 0 if n == 0 else d(n - 1)\nprint(d(600))\n',
     'compute': 'def fib(n):\n    a, b = 0, 1\n    for i in range(n):\n        a, b = b, a + b\n    return a\nprint(fib(30))\nprint(sum(i * i for i in range(100)))\nprint(sorted([3, 1, 2]))\nprint("-".join(["a", "b"]))\n',
     'classes': 'class A:\n    v = 1\n    def m(self):\n        return self.v\nclass B(A):\n    v = 2\nprint(A().m(), B().m())\ntry:\n    raise KeyError("k")\nexcept LookupError:\n    print("caught")\n',
     'gen': 'def g(n):\n    for i in range(n):\n        yield i * 2\nprint(list(g(5)))\nd = {}\nfor k in "abc":\n    d[k] = 1\nprint(len(d))\n',
